@@ -189,30 +189,7 @@ def check(run):
         T + '::bind': 'bind', T + '::async_connect': 'implicit bind', T + '::internal_connect': 'accepted socket takes the listening endpoint', T + '::close': 'release', T + '::~socket': 'release',
         T + '::socket': 'move', U + '::bind': 'bind', U + '::close': 'release', U + '::~socket': 'release', U + '::socket': 'move'}, required=[T + '::bind', U + '::bind'])
 
-    run.clause('R5 ownership and look-up checks: erase / re-point dominated by found && owner; every registry iterator compared with end() on a real branch before ->')
-    for name, action in ((S + '::unbind_socket', 'erase'), (S + '::unbind_udp_socket', 'erase'), (S + '::rebind_socket', 'repoint'), (S + '::rebind_udp_socket', 'repoint')):
-        f = fx.fn1(name)
-        run.touch(f)
-        if action == 'erase':
-            sites = [c for c in f.calls() if (c.get('callee') or '').endswith('::erase')]
-        else:
-            sites = [n for n in f.all_nodes() if n['k'] == 'bin' and n['op'] == '=' and '->second' in q.render(f, n['lhs'])]
-        if not sites:
-            run.broke('%s: %s site not found' % (name, action))
-        for s in sites:
-            g = q.guards_at(f, s)
-            found = any(is_end_test(f, a) == (not p) for a, p in g if is_end_test(f, a) is not None)
-            owner_param = 'prev' if name.endswith('rebind_socket') else 'socket'
-            owner = any(is_owner_test(f, a, owner_param) == p for a, p in g if is_owner_test(f, a, owner_param) is not None)
-            need_owner = not name.endswith('rebind_udp_socket')
-            if name in LOOKUP_EXCEPTIONS and not found:
-                run.ok('R5', 'owner-test', name, f.loc(s), 'tabled: ' + LOOKUP_EXCEPTIONS[name], nontrivial=False)
-                continue
-            run.check(found and (owner or not need_owner), 'R5', 'owner-test', name, f.loc(s),
-                      'the registry entry is %s without a dominating %s: %s' % ('erased' if action == 'erase' else 're-pointed', 'i != end()' if not found else 'i->second == ' + owner_param,
-                                                                              'an absent entry is dereferenced (undefined behaviour; assert() is compiled out)' if not found else
-                                                                              'a socket that merely shares the endpoint (an accepted socket) takes over or removes its acceptor\'s entry'),
-                      'dominated by found && owner')
+    owner_rules(run)
     exact_key_rule(run)
     # every find/lower_bound result on the registries
     nl = 0
@@ -243,6 +220,15 @@ def check(run):
         ins = [c for c in f.calls() if (c.get('callee') or '').split('::')[-1] in ('insert', 'emplace', 'emplace_hint') and q.render(f, c.get('obj')) == reg]
         if not ins:
             run.broke('%s no longer inserts into %s' % (fname, reg))
+        # the occupancy test behind address_in_use compares the WHOLE endpoint of the lower_bound neighbour with the one asked for
+        for s_ in [n for n in f.all_nodes() if n['k'] == 'call' and n.get('opc') == '=' and 'address_in_use' in q.render(f, n)]:
+            g_ = q.guards_at(f, s_)
+            keyt = [a for a, p_ in g_ if p_ and q.cmp_atom(a) and q.cmp_atom(a)[0] == '==' and any('->first' in q.render(f, x) for x in q.cmp_atom(a)[1:])]
+            whole = [a for a in keyt if {q.render(f, q.strip_casts(x)) for x in q.cmp_atom(a)[1:]} in ({'i->first', 'ep'},) or sorted(q.render(f, q.strip_casts(x)).split('->')[-1] for x in q.cmp_atom(a)[1:]) == sorted(['first', q.render(f, q.strip_casts(q.cmp_atom(a)[2]))])]
+            run.check(bool(keyt) and all(any(q.render(f, q.strip_casts(x)).endswith('->first') for x in q.cmp_atom(a)[1:]) and any(q.render(f, q.strip_casts(x)) == f.params[1]['name'] for x in q.cmp_atom(a)[1:]) for a in keyt),
+                      'R5', 'occupied-means-same-endpoint', '%s: address_in_use' % fname, f.loc(s_),
+                      'address_in_use is decided by comparing only a part of the neighbouring entry\'s endpoint (%s) with the requested one: a free endpoint is refused because another address holds the same port (or the other way round)' % ', '.join(q.render(f, a) for a in keyt),
+                      'the neighbour\'s whole key is compared with the requested endpoint')
         for err in ('access_denied', 'address_in_use'):
             sites = [n for n in f.all_nodes() if n['k'] == 'call' and n.get('opc') == '=' and err in q.render(f, n)]
             ok = bool(sites) and all(not any(f.cfg._reaches(f.cfg.node_block(s), f.cfg.node_block(i)) for i in ins) for s in sites)
@@ -288,6 +274,9 @@ def check(run):
         run.check(ok and bool(deleg), 'R4', 'error-does-not-register', '%s: address_family_not_supported' % f.norm, f.loc(), 'family mismatch can still reach the registry', 'assigned and never reaches io_context::bind')
         setb = [a.site for a in q.field_accesses(f, {B + '::m_bound_to'}) if a.kind == 'assign']
         run.check(bool(setb) and all(any(q.render(f, a) == 'ec' and not p for a, p in q.guards_at(f, s)) for s in setb), 'R5', 'bound-only-on-success', f.norm, f.loc(), 'm_bound_to is set although the registry reported an error', 'm_bound_to set only when !ec')
+    run.clause('a moved socket keeps what the registry relies on (family, binding, forwarder): the move constructors transfer every field (shared with C12)')
+    import p12 as _p12
+    _p12.move_ctor_rules(run, ((T, 'tcp'), (U, 'udp')))
     run.floor('R8', 14)
     run.floor('R5', 8)
 
@@ -315,6 +304,36 @@ def is_owner_test(fn, atom, param):
     if {l, r} == {'i->second', param}:
         return c[0] == '=='
     return None
+
+
+def owner_rules(run):
+    """R5 the registry entry of an endpoint is erased / re-pointed only by the socket that owns it (shared with C12: an
+    accepted socket shares its acceptor's endpoint - moving or closing it must not take the acceptor's entry with it)."""
+    fx = run.fx
+    run.clause('R5 ownership and look-up checks: erase / re-point dominated by found && owner; every registry iterator compared with end() on a real branch before ->')
+    for name, action in ((S + '::unbind_socket', 'erase'), (S + '::unbind_udp_socket', 'erase'), (S + '::rebind_socket', 'repoint'), (S + '::rebind_udp_socket', 'repoint')):
+        f = fx.fn1(name)
+        run.touch(f)
+        if action == 'erase':
+            sites = [c for c in f.calls() if (c.get('callee') or '').endswith('::erase')]
+        else:
+            sites = [n for n in f.all_nodes() if n['k'] == 'bin' and n['op'] == '=' and '->second' in q.render(f, n['lhs'])]
+        if not sites:
+            run.broke('%s: %s site not found' % (name, action))
+        for s in sites:
+            g = q.guards_at(f, s)
+            found = any(is_end_test(f, a) == (not p) for a, p in g if is_end_test(f, a) is not None)
+            owner_param = 'prev' if name.endswith('rebind_socket') else 'socket'
+            owner = any(is_owner_test(f, a, owner_param) == p for a, p in g if is_owner_test(f, a, owner_param) is not None)
+            need_owner = not name.endswith('rebind_udp_socket')
+            if name in LOOKUP_EXCEPTIONS and not found:
+                run.ok('R5', 'owner-test', name, f.loc(s), 'tabled: ' + LOOKUP_EXCEPTIONS[name], nontrivial=False)
+                continue
+            run.check(found and (owner or not need_owner), 'R5', 'owner-test', name, f.loc(s),
+                      'the registry entry is %s without a dominating %s: %s' % ('erased' if action == 'erase' else 're-pointed', 'i != end()' if not found else 'i->second == ' + owner_param,
+                                                                              'an absent entry is dereferenced (undefined behaviour; assert() is compiled out)' if not found else
+                                                                              'a socket that merely shares the endpoint (an accepted socket) takes over or removes its acceptor\'s entry'),
+                      'dominated by found && owner')
 
 
 def exact_key_rule(run):
